@@ -1135,6 +1135,9 @@ class Engine:
             a = args[eff["ret_arg"]]
             res = P(a[1], a[2] + Lin.atom("off:" + vid)) if name != "realloc" else None
         variants = [(res, None)]
+        if res is not None and name in NULL_ON_FAILURE:
+            # fgets / asctime_r / ctime_r return their buffer argument, or NULL when they fail
+            variants = [(P("null", Lin.const(0)), None), (P(args[eff["ret_arg"]][1], args[eff["ret_arg"]][2]), None)]
         if res is not None and name in SEARCHERS:
             # a searcher returns NULL or a pointer at/behind its argument: two outcomes instead of one unconstrained offset
             variants = [(P("null", Lin.const(0)), None), (res, Lin.atom("off:" + vid))]
@@ -1418,6 +1421,7 @@ def run_adaptive(prog, fn, make_plugin, budgets=(60000, 400000), noinline=(), lo
     raise last
 
 
+NULL_ON_FAILURE = ("fgets", "asctime_r", "ctime_r")
 SEARCHERS = ("strchr", "strrchr", "strstr", "strcasestr", "strpbrk", "memchr", "memrchr", "wcschr", "wcsrchr", "wcsstr", "wcspbrk", "wmemchr")
 
 
